@@ -2,14 +2,14 @@
 import vlib, gen, gen_prog, runlib
 from gen_prog import FLAG, run_line, parse_obs, head
 
-LEVEL = "other"
+LEVEL = "proof"
 FAMILY = "run"
 
 MANIFEST = {
- "level": "other",
- "text": "Proved about the Gallina models of runtime_dialect.rs + f_table.rs and chia_dialect.rs (Props/C30.v): for each of the 256 one-byte opcodes the standard table maps it to the same operator function as ChiaDialect's dispatch, or both treat it as unknown, except the opcodes ChiaDialect gates by flags or defines only itself (48 coinid, 60 under DISABLE_OP, 62-65), decided by computation over all 256 opcodes and all relevant flag bits; multi-byte opcodes other than the two 4-byte secp opcodes are unknown to both; hence (lock-step simulation) every program that only uses opcodes on which the two dispatch functions agree and enters no softfork guard has the same result, cost and error under both dialects with flags minus ENABLE_GC and DISABLE_OP. The model is run against the implementation under both dialects; the search compares the two dialects on the implementation.",
- "note": vlib.NOTE_COMMON + " Level 'other' until the lock-step corollary is completed for all error outcomes (Props/C30.v names what is proved).",
- "technique": "Coq proof (finite sweep over 256 opcodes x flag bits by vm_compute lifted with forallb_forall; lock-step simulation of two dialects) + model/implementation differential run + implementation search RuntimeDialect vs ChiaDialect",
+ "level": "proof",
+ "text": "Proved about the Gallina models of runtime_dialect.rs + f_table.rs and chia_dialect.rs (Props/C30.v), for every primitives record, fuel, program, environment and budget: (1) for each of the 256 one-byte opcodes the standard table maps it to the same operator function as ChiaDialect's dispatch, or both treat it as unknown, except the opcodes ChiaDialect gates by flags or defines only itself (48 coinid, 60 under DISABLE_OP without NEW_COST_MODEL, 62-65); multi-byte opcodes other than the two 4-byte secp opcodes are unknown to both. (2) RuntimeDialect hands its flag word unchanged to the operators while ChiaDialect::new clears LIMITS under NEW_COST_MODEL: every operator function of either table is proved insensitive to ENABLE_GC and, under NEW_COST_MODEL, to LIMITS and DISABLE_OP (C30_flags_unobservable, all 47 operator functions). (3) Hence by lock-step simulation through a barrier dialect (Err Unsupported on every opcode the dispatch functions do not share and on the softfork keyword): every run that does not meet the barrier has the same result, cost and error kind on RuntimeDialect{F} and ChiaDialect{F} for EVERY flag set F without ENABLE_GC and DISABLE_OP (C30_run: no further premise; the earlier exclusion of NEW_COST_MODEL+LIMITS is gone), and on RuntimeDialect{F} and ChiaDialect{F minus ENABLE_GC and DISABLE_OP} for every F that has NEW_COST_MODEL or lacks DISABLE_OP (C30_run_all; C30_run_words on 32-bit flag words). (4) For F with DISABLE_OP and without NEW_COST_MODEL the comparison with ChiaDialect{F minus DISABLE_OP} is refuted by a computed witness, reproduced on the implementation: op_div/op_divmod/op_mod read DISABLE_OP themselves (dividend over 2048 bytes), RuntimeDialect passes the bit on: (/ (q . 0x01^2049) (q . 3)) is InvalidOpArg on RuntimeDialect{DISABLE_OP} and Ok 29709 on ChiaDialect{} (C30_minus_disable_op_refuted); for that class, and every other F, RuntimeDialect{F} = ChiaDialect{F minus ENABLE_GC} outside opcode 60 is proved (C30_run_minus_gc). The model is run against the implementation under both dialects; the search compares the two dialects on the implementation under all combinations of NEW_COST_MODEL, LIMITS, DISABLE_OP, ENABLE_GC with operands at the 256/1024/2048-byte limits.",
+ "note": vlib.NOTE_COMMON + " Reading of 'the same flags minus ENABLE_GC and DISABLE_OP': as flag sets that contain neither, the statement is C30_run and is proved whole; as RuntimeDialect{F} vs ChiaDialect{F minus the two bits} it is proved for every F except DISABLE_OP without NEW_COST_MODEL, where it is false for the code as written (witness above; not a defect of RuntimeDialect, which consistently forwards its flags).",
+ "technique": "Coq proof (opcode-by-opcode comparison of the two dispatch functions; per-operator flag-insensitivity lemmas lifted through both tables with Forall over all_ops; lock-step simulation of two dialects through a barrier dialect; bit-level lemma for flag words) + model/implementation differential run + implementation search RuntimeDialect vs ChiaDialect over all flag bits with size-boundary operands",
 }
 
 TABLE = {3, 4, 5, 6, 7, 8, 9, 10, 11, 12, 13, 14, 16, 17, 18, 19, 20, 21, 22, 23, 24, 25, 26, 27, 29, 30, 32, 33, 34,
